@@ -152,6 +152,44 @@ def noBool : ML → Bool
   | .nil => true
   | .cons t ms => noBoolM t && noBool ms
 
+mutual
+/-- no `optional` anywhere inside -/
+def noOptM : MT → Bool
+  | .optional _ => false
+  | .array _ t => noOptM t
+  | .object ms => noOptMs ms
+  | _ => true
+def noOptMs : ML → Bool
+  | .nil => true
+  | .cons t ms => noOptM t && noOptMs ms
+end
+
+def allOptional : ML → Bool
+  | .nil => true
+  | .cons (.optional _) ms => allOptional ms
+  | .cons _ _ => false
+
+/-- optional members are the trailing members of the struct -/
+def optsLast : ML → Bool
+  | .nil => true
+  | .cons (.optional _) ms => allOptional ms
+  | .cons t ms => noOptM t && optsLast ms
+
+mutual
+/-- no `int32_string` (whose decoder accepts non-canonical decimal strings silently) and no
+`int32_twstring` anywhere inside -/
+def noIntStrM : MT → Bool
+  | .int32String => false
+  | .twString _ => false
+  | .optional t => noIntStrM t
+  | .array _ t => noIntStrM t
+  | .object ms => noIntStrMs ms
+  | _ => true
+def noIntStrMs : ML → Bool
+  | .nil => true
+  | .cons t ms => noIntStrM t && noIntStrMs ms
+end
+
 /-- identifiers `encode_id` accepts and `decode_id` gives back -/
 def idOk : Ident → Bool
   | .ordinal i => decide (0 < i) && decide (i < 2 ^ 30)
@@ -164,6 +202,17 @@ def idsOk (p : ProtoSpec) : Bool :=
   p.game.all (fun s => idOk s.id && decide (findSpec s.id p.game = some s)) &&
   p.connless.all (fun s => decide (s.id.length = 8) && decide (findConnless s.id p.connless = some s)) &&
   p.objects.all (fun s => decide (findSpec s.id p.objects = some s) && !s.members.isNil)
+
+/-- the messages of a protocol for which "decodes without warning" means "is canonical" -/
+def cleanCanonCount (p : ProtoSpec) : Nat × Nat :=
+  let f := fun (ms : ML) => noOptMs ms && noIntStrMs ms
+  ((p.system.filter fun s => f s.members).length + (p.game.filter fun s => f s.members).length +
+    (p.connless.filter fun s => f s.members).length,
+   p.system.length + p.game.length + p.connless.length)
+
+def optsLastProto (p : ProtoSpec) : Bool :=
+  p.system.all (fun s => optsLast s.members) && p.game.all (fun s => optsLast s.members) &&
+  p.connless.all (fun s => optsLast s.members)
 
 /-- Every message / object description of a protocol is one the generator can emit. -/
 def wfProto (p : ProtoSpec) : Bool :=
